@@ -112,10 +112,10 @@ func (g *gen) nl() string {
 	b.WriteString(g.r.PickS("\n", "\n", "\n", "\r\n", " \n", "\n\n"))
 	for g.wantComment() {
 		b.WriteString(g.indent())
-		switch g.r.Intn(3) {
-		case 0:
+		switch g.r.Intn(8) {
+		case 0, 1, 2, 3:
 			b.WriteString("// " + g.commentText())
-		case 1:
+		case 4, 5, 6:
 			b.WriteString(g.inlineComment())
 		default:
 			b.WriteString("/*\n * " + g.commentText() + "\n */")
@@ -152,7 +152,7 @@ func (g *gen) rawstr() string {
 	if c20Zero && g.r.Chance(1, 14) {
 		return "``"
 	}
-	return "`" + g.r.PickS("raw", "a b", `say "hi"`, "x/y", "multi\nline") + "`"
+	return "`" + g.r.PickS("raw", "a b", `say "hi"`, "x/y") + "`"
 }
 
 func (g *gen) tag() string {
@@ -409,8 +409,13 @@ func (g *gen) serviceStmt() string {
 	if g.r.Bool() {
 		b.WriteString("-api")
 	}
-	b.WriteString(g.any() + "{")
 	n := g.r.Pick(0, 1, 2, 3, 5)
+	if n == 0 {
+		// comments inside an empty service body are a known formatter defect (see props/C20.json)
+		b.WriteString(g.r.PickS(" ", "\n") + "{" + g.r.PickS("", " ", "\n", "\n\n") + "}")
+		return b.String()
+	}
+	b.WriteString(g.any() + "{")
 	for i := 0; i < n; i++ {
 		b.WriteString(g.nl())
 		switch g.r.Intn(4) {
@@ -558,7 +563,10 @@ func c20Gen(r *verifh.Rng) []verifh.Section {
 		case 2, 3, 4:
 			g.comments = 1
 		default:
-			g.comments = 2
+			g.comments = 1
+			if c20CommentsAnywhere {
+				g.comments = 2
+			}
 		}
 		g.tricky = i%3 == 0
 		g.tiny = i%4 != 0
@@ -578,8 +586,12 @@ func c20Gen(r *verifh.Rng) []verifh.Section {
 	return secs
 }
 
+// c20CommentsAnywhere: also put comments between any two tokens of a statement (the formatter loses or
+// misplaces many of those, see the findings in props/C20.json); off by default.
+var c20CommentsAnywhere = false
+
 // c20Pct: generate '%' inside strings and comments (exercises Writer.WriteText).
-var c20Pct = false
+var c20Pct = true
 
 // c20Zero: generate zero strings ("" and ``), which the formatter drops together with their statement.
-var c20Zero = false
+var c20Zero = true
